@@ -1009,8 +1009,10 @@ def r_bookkeep(idx, rep):
             verdict[key] = (state, where, msg)
 
     n_cp = 0
+    orders = []
     for variant, cps, finals, pb_, pe_ in runs:
-        for env, st in cps:
+        for env, st, order_val in cps:
+            orders.append((variant, st, order_val))
             n_cp += 1
             where = "%s:%d" % (f.module.relpath, st.lineno)
             nodes = env.get("self.nodes")
@@ -1094,8 +1096,17 @@ def r_bookkeep(idx, rep):
             leafp = idx.func(MOD + "::insert_leaf").params()
             a = [u(x) for x in il[0].args]
             fors = [s for s in iter_stmts(callee.node.body) if isinstance(s, ast.For)]
-            if fors and u(fors[0].iter) == cp[4] and len(a) == 5:
-                ok2 = (a[0] == cp[0] and a[1] == u(fors[0].target) and a[2] == cp[1] and a[3] == cp[2] and a[4] == cp[3])
+            if fors and len(a) == 5:
+                lp_ = fors[0]
+                # the leaf handed over is one element of insert_order per iteration: `for i in insert_order` or `for k in range(len(insert_order)): insert_order[k]`
+                elem = None
+                if u(lp_.iter) == cp[4]:
+                    elem = u(lp_.target)
+                elif isinstance(lp_.iter, ast.Call) and call_name(lp_.iter) == "range" and len(lp_.iter.args) == 1 and u(lp_.iter.args[0]).replace(" ", "") in (
+                        "len(%s)" % cp[4], "%s.shape[0]" % cp[4]) and isinstance(lp_.target, ast.Name):
+                    elem = "%s[%s]" % (cp[4], lp_.target.id)
+                a1 = u(resolved(callee.node, il[0].args[1])) if isinstance(il[0].args[1], ast.Name) else a[1]
+                ok2 = elem is not None and (a[0] == cp[0] and (a[1] == elem or a1 == elem) and a[2] == cp[1] and a[3] == cp[2] and a[4] == cp[3])
         rep.check(ok2, rule, MOD + "::insert_aabbs|thread-state", callee.where,
                   "compiled insert_aabbs must call insert_leaf(root, i, nodes, aabbs, filled_len) for each i of insert_order")
     old = [st for st in body if isinstance(st, ast.Assign) and isinstance(st.targets[0], ast.Name) and u(st.value) == "self.filled_len"]
@@ -1104,68 +1115,32 @@ def r_bookkeep(idx, rep):
     rule2 = "R-INDEXSPACE"
     rep.rule(rule2, "every value reaching the insert_order argument of the compiled insert_aabbs is in NODE index space "
                     "(old_filled_len + batch position), never a batch-local permutation", floor=2)
-    if len(old) != 1 or len(cs) != 1:
-        return
-    OLD = old[0].targets[0].id
-    order_arg = u(cs[0].value.args[4]) if len(cs[0].value.args) > 4 else None
-    if order_arg is None:
-        raise AnalysisError("insert order argument not found")
-    defs = [st for st in body if isinstance(st, ast.Assign) and u(st.targets[0]) == order_arg]
-    if not defs:
-        raise AnalysisError("no definition of %s found" % order_arg)
-
-    def space(expr):
-        """'node' | 'batch' | '?'"""
-        t = u(expr).replace(" ", "")
-        if isinstance(expr, ast.Call) and call_name(expr) in ("np.array", "np.arange", "np.asarray", "list"):
-            inner = expr.args[0] if expr.args else None
-            if call_name(expr) == "np.arange":
-                a = [u(x).replace(" ", "") for x in expr.args]
-                if len(a) == 2 and a[0] == OLD and a[1] in ("self.filled_len", OLD + "+aabb_len", OLD + "+len(%s)" % p_batch):
-                    return "node"
-                return "batch" if len(a) == 1 else "?"
-            if isinstance(inner, ast.Call) and call_name(inner) == "range":
-                a = [u(x).replace(" ", "") for x in inner.args]
-                if len(a) == 2 and a[0] == OLD and a[1] in ("self.filled_len", OLD + "+aabb_len", OLD + "+len(%s)" % p_batch):
-                    return "node"
-                return "batch" if len(a) == 1 else "?"
-            return space(inner) if inner is not None else "?"
-        if isinstance(expr, ast.BinOp) and isinstance(expr.op, ast.Add):
-            l, r = expr.left, expr.right
-            for x, y in ((l, r), (r, l)):
-                if u(x) == OLD and space(y) == "batch":
-                    return "node"
-            return "?"
-        if isinstance(expr, ast.Call) and (call_name(expr) or "").split(".")[-1] in ("_sort_aabbs", "argsort"):
-            # a permutation of positions inside its argument
-            arg = expr.args[0] if expr.args else (expr.func.value if isinstance(expr.func, ast.Attribute) else None)
-            return "batch" if _is_batch(arg) else "batchslice"
-        return "?"
-
-    def _is_batch(arg):
-        if arg is None:
-            return False
-        t = u(arg).replace(" ", "")
-        if t in (p_batch, "np.asarray(%s)" % p_batch, "np.array(%s)" % p_batch):
-            return True
-        if t in ("self.aabbs[%s:self.filled_len]" % OLD, "self.aabbs[%s:%s+aabb_len]" % (OLD, OLD)):
-            return True
-        return False
-    for st in defs:
-        sp = space(st.value)
-        key = fk + "|%s = %s" % (order_arg, u(st.value))
-        if sp == "node":
-            rep.ok(rule2, key, "%s:%d" % (f.module.relpath, st.lineno), "node index space")
-        elif sp == "batch":
-            rep.bad(rule2, key, "%s:%d" % (f.module.relpath, st.lineno),
-                    "a batch-local permutation (positions 0..n-1 inside the batch) is used as node indices: on any batch after the "
-                    "first, leaves old_filled_len.. are never inserted and old nodes are re-inserted")
-        elif sp == "batchslice":
-            rep.bad(rule2, key, "%s:%d" % (f.module.relpath, st.lineno),
-                    "permutation of a slice that is not the batch (%s) is used as node indices without adding %s" % (u(st.value), OLD))
+    # decided on the VALUE that reaches the compiled call on each path of the length interpreter: an index range [start, start + len) or a permutation
+    # of one (argsort / _sort_aabbs of a slice, plus an offset); node space is start == F (fill level at entry) and len == n (batch size)
+    seen_keys = set()
+    for variant, st_, ov in orders:
+        if isinstance(ov, bk.Seq) and len(ov.segs) == 1 and ov.segs[0][0][0] == "range":
+            start, ln, what = ov.segs[0][0][1], ov.segs[0][1], "range"
+        elif isinstance(ov, bk.Perm):
+            start, ln, what = ov.start, ov.len, "permutation of %s" % ov.over
         else:
-            rep.unknown(rule2, key, "%s:%d" % (f.module.relpath, st.lineno), "index space of `%s` not recognised" % u(st.value))
-            rep.error("R-INDEXSPACE cannot classify `%s = %s`" % (order_arg, u(st.value)))
+            start = ln = what = None
+        key = fk + "|insert order: %s" % ("%s from %r, %r entries" % (what, start, ln) if what else "not derivable")
+        if key in seen_keys:
+            continue
+        seen_keys.add(key)
+        where_ = "%s:%d" % (f.module.relpath, st_.lineno)
+        if what is None:
+            rep.unknown(rule2, key, where_, "the insertion order handed to the compiled insert_aabbs is not derivable on a path (%s)" % variant)
+        elif start == F and ln == n_ and (what == "range" or what.endswith("batch")):
+            rep.ok(rule2, key, where_, "node index space")
+        elif start == bk.Lin():
+            rep.bad(rule2, key, where_,
+                    "a batch-local permutation (positions 0..n-1 inside the batch) is used as node indices: on any batch after the first, leaves old_filled_len.. are "
+                    "never inserted and old nodes are re-inserted")
+        else:
+            rep.bad(rule2, key, where_, "the insertion order is a %s starting at %r with %r entries; the batch occupies the node indices F .. F + n - 1 (F = fill level at "
+                                        "entry, n = batch size)" % (what, start, ln))
     # in-place shuffles keep the space
     # _sort_aabbs sorts along the x low coordinate: any key is fine, but it must return a permutation (argsort)
     s = idx.func(MOD + "::_sort_aabbs")
